@@ -212,6 +212,9 @@ func countScalars(t types.Type) int64 {
 
 func (ex *Exec) zeroValue(t types.Type) Value {
 	ts := ex.ts
+	if ex.isAbstractType(t) {
+		return &OpaqueTokV{ID: ts.BV(0, 64)}
+	}
 	switch u := t.Underlying().(type) {
 	case *types.Basic:
 		if w, _, ok := intInfo(t); ok {
@@ -268,6 +271,9 @@ func (ex *Exec) zeroValue(t types.Type) Value {
 // symbolicValue builds an unconstrained value of a value type; names are used for replay.
 func (ex *Exec) symbolicValue(name string, t types.Type) Value {
 	ts := ex.ts
+	if ex.isAbstractType(t) {
+		return &OpaqueTokV{ID: ts.Var(name, BVSort(64))}
+	}
 	switch u := t.Underlying().(type) {
 	case *types.Basic:
 		if s, ok := scalarSort(t); ok {
@@ -507,6 +513,10 @@ func (ex *Exec) iteValue(c *Term, a, b Value) Value {
 		if ok {
 			return ex.mergeMaps(c, x, y)
 		}
+	case *OpaqueTokV:
+		if y, ok := b.(*OpaqueTokV); ok {
+			return &OpaqueTokV{ID: ex.ts.Ite(c, x.ID, y.ID)}
+		}
 	case *HeapRefV:
 		y, ok := b.(*HeapRefV)
 		if ok && x.Cls == y.Cls {
@@ -668,7 +678,13 @@ func (ex *Exec) eqValue(a, b Value) *Term {
 		if y, ok := b.(*IfaceV); ok && y.Nil {
 			return ts.Eq(x.ID, ts.BV(0, 64))
 		}
+		if y, ok := b.(*AbstractIfaceV); ok {
+			return ts.Eq(x.ID, y.ID)
+		}
 	case *FuncV:
+		if y, ok := b.(*FuncV); ok && x.AbstractID != nil && y.AbstractID != nil {
+			return ts.Eq(x.AbstractID, y.AbstractID)
+		}
 		if y, ok := b.(*FuncV); ok && y.Named == "<nil>" {
 			if x.AbstractID != nil {
 				return ts.Eq(x.AbstractID, ts.BV(0, 64))
